@@ -79,9 +79,9 @@ Definition agree (c : c06case) : bool :=
   Nat.eqb (res_class (model_load (c_feats c))) (res_class (c_load c)) &&
   match c_load c with Ok ns => vlist_eqb names ns && vlist_eqb names (c_text2_names c) | _ => true end &&
   forallb (agree_feat loaded) (c_feats c) &&
-  (* the model's to_json: "_history" exactly for carvers; never for a reloaded object (O6) *)
+  (* the model's to_json: "_history" exactly for carvers, and again for the reloaded carver *)
   Bool.eqb (c_history1 c) (c_carver c) &&
-  (negb loaded || negb (c_history2 c)).
+  (negb loaded || Bool.eqb (c_history2 c) (c_history1 c)).
 
 (* ---- the property as a boolean on the implementation's own output -------------------------- *)
 (* same list, same members for every leader, same set of content keys *)
